@@ -1,7 +1,8 @@
 import GlmVerif.Spec.C02
-import GlmVerif.Gen.C02
-/-! table check of family `col_set` against the model generated from /repo (kernel evaluation) -/
+import GlmVerif.Gen.C02.col_set
+/-! table check of family `col_set` against the model of its units generated from /repo (kernel evaluation) -/
 namespace Glm.Props.C02
 open Glm Glm.Spec.C02 Glm.Gen.C02
-theorem col_set_ok : f_col_set.ok lookup = true := by decide +kernel
+set_option maxHeartbeats 4000000 in
+theorem col_set_ok : f_col_set.ok (fun _ ks => col_set_L ks) = true := by decide +kernel
 end Glm.Props.C02
